@@ -62,6 +62,7 @@ def new_state(rng, full=True, cgo=False):
         "pt_off": rng.randint(500, 999),
         "pd": [rng.randint(1, 9) for _ in range(n)],
         "pr": {"r_d.go": ["d", rng.randint(1, 9)], "r_m.go": ["m", rng.randint(10, 99)]},
+        "decl_f": rng.randint(2, 99),
     }
     return s
 
@@ -91,7 +92,7 @@ def _main(s):
             "\tr := pg.Mix(pg.B4{A: 1, B: 2, C: 3, D: mainK}, 7)\n"
             "\tprintln(\"pgmix\", r.A, r.B, r.C, r.D)\n"
             "\tprintln(\"pd\", pd1.V(), pd1.S())\n"
-            "\tprintln(\"pt\", pt.TV())\n"
+            "\tprintln(\"pt\", pt.TV(), pt.DF())\n"
             "\tprintln(\"pr\", pr.Order(), pr.Sum())\n"
             "}\n")
 
@@ -179,7 +180,11 @@ def render(s):
         f["pd%d/pd%d.go" % (i, i)] = _pd(s, i)
     f["pt/on.go"] = "//go:build %s\n\npackage pt\n\nconst T = %d\n" % (TAG, s["pt_on"])
     f["pt/off.go"] = "//go:build !%s\n\npackage pt\n\nconst T = %d\n" % (TAG, s["pt_off"])
-    f["pt/pt.go"] = "package pt\n\nfunc TV() int { return T }\n"
+    # pdecl is a declaration-only package (the usual llgo C-binding form): it is never compiled itself, its constants and
+    # types are folded into its importer pt, which IS cached
+    f["pdecl/pdecl.go"] = ("package pdecl\n\nconst LLGoPackage = \"decl\"\n\nconst Factor = %d\n\ntype Pair struct{ A, B int32 }\n" % s.get("decl_f", 7))
+    f["pt/pt.go"] = ("package pt\n\nimport \"%s/pdecl\"\n\nfunc TV() int { return T }\n\n"
+                     "func DF() int { p := pdecl.Pair{A: pdecl.Factor, B: 2}; return int(p.A)*pdecl.Factor + int(p.B) }\n" % MOD)
     f["pr/pr.go"] = ("package pr\n\nvar order string\nvar sum int\n\n"
                      "func reg(tag string, v int) bool {\n\tif order != \"\" {\n\t\torder += \",\"\n\t}\n\torder += tag\n\tsum += v\n\treturn true\n}\n\n"
                      "func Order() string { return order }\nfunc Sum() int      { return sum }\n")
@@ -221,7 +226,8 @@ def expected(s, cfg):
     out.append("pgmix 8 14 -4 %d" % (s["main_k"] + 1))
     c = pd_consts(s)
     out.append("pd %d %d" % (c[1], c[2] * mul + k))
-    out.append("pt %d" % (s["pt_on"] if cfg["tags"] else s["pt_off"]))
+    df = s.get("decl_f", 7)
+    out.append("pt %d %d" % (s["pt_on"] if cfg["tags"] else s["pt_off"], df * df + 2))
     files = sorted(s["pr"])
     out.append("pr %s %d" % (",".join(s["pr"][f][0] for f in files), sum(s["pr"][f][1] for f in files)))
     markers = []
@@ -259,7 +265,7 @@ def _samelen(rng, cur):
 
 
 # kind -> (needs_full, is_config, packages whose archive must change)
-FILE_KINDS = ["go_body", "go_generic_body", "go_main", "dep_leaf", "dep_mid", "c_hdr_pkgdir", "file_add", "file_remove", "file_rename",
+FILE_KINDS = ["go_body", "go_generic_body", "go_main", "dep_leaf", "dep_mid", "dep_decl", "c_hdr_pkgdir", "file_add", "file_remove", "file_rename",
               "tag_file_body", "samesize_newmtime"]
 GATED_KINDS = ["embed_content", "embed_bytes", "embed_set", "c_file_subdir", "c_hdr_subdir", "samesize_mtime", "samesize_mtime_embed"]
 CONFIG_KINDS = ["tags", "abi"] + ["env:" + v[0] for v in ENV_VARS]
@@ -287,6 +293,9 @@ def apply_edit(kind, s, cfg, rng):
         n = len(s["pd"])
         s["pd"][n - 1] = _other(rng, 1, 99, s["pd"][n - 1])
         info.update(pkg="pd%d" % n, desc="const C of chain leaf pd%d -> %d (folded into pd1..pd%d at compile time)" % (n, s["pd"][n - 1], n - 1))
+    elif kind == "dep_decl":
+        s["decl_f"] = _other(rng, 2, 99, s.get("decl_f", 7))
+        info.update(pkg="pt", desc="const Factor of the declaration-only package pdecl -> %d (folded into its cached importer pt)" % s["decl_f"])
     elif kind == "dep_mid":
         n = len(s["pd"])
         i = rng.randint(2, n)
